@@ -1893,8 +1893,11 @@ class Interp:
         if n.is_const() and pos.is_const():
             if pos.c < n.c:
                 cell = self.new_cell(st, VInt(8, False, lin=Lin.atom(("byte", sl.buf, (sl.start + pos.c).key()))))
-                self.write_loc(st, r.cell, r.path, VIter(sl, Lin.const(pos.c + 1)))
-                return [(st, mk_some(VRef(cell, ())))]
+                self.write_loc(st, r.cell, r.path, type(it)(sl, Lin.const(pos.c + 1)))
+                item = VRef(cell, ())
+                if isinstance(it, VIterEnum):
+                    item = VTuple((mk_const(pos.c, 64, False), item))
+                return [(st, mk_some(item))]
             return [(st, NONE)]
         if not (pos.is_const() and pos.c == 0):
             raise Unanalysable("slice iterator re-entered in the middle of a summarised loop")
@@ -1912,8 +1915,11 @@ class Interp:
         if xs:
             stA = xs[0]
             cellA = self.new_cell(stA, VInt(8, False, lin=Lin.atom(("byte", sl.buf, sl.start.key()))))
-            self.write_loc(stA, r.cell, r.path, VIter(sl, Lin.const(1)))
-            self.write_place(stA, frame, dest, mk_some(VRef(cellA, ())))
+            self.write_loc(stA, r.cell, r.path, type(it)(sl, Lin.const(1)))
+            itemA = VRef(cellA, ())
+            if isinstance(it, VIterEnum):
+                itemA = VTuple((mk_const(0, 64, False), itemA))
+            self.write_place(stA, frame, dest, mk_some(itemA))
             saved = (self.obl, self.unknown_ext, self.leaf_calls)
             self.obl, self.unknown_ext, self.leaf_calls = {}, {}, {}
             try:
@@ -1962,8 +1968,11 @@ class Interp:
                 for c in temps:
                     stG.store[c] = UNINIT
                 cellG = self.new_cell(stG, VInt(8, False, lin=Lin.atom(("byte", sl.buf, (sl.start + Lin.atom(kk)).key()))))
-                self.write_loc(stG, r.cell, r.path, VIter(sl, Lin.atom(kk) + 1))
-                self.write_place(stG, frame, dest, mk_some(VRef(cellG, ())))
+                self.write_loc(stG, r.cell, r.path, type(it)(sl, Lin.atom(kk) + 1))
+                itemG = VRef(cellG, ())
+                if isinstance(it, VIterEnum):
+                    itemG = VTuple((VInt(64, False, lin=Lin.atom(kk)), itemG))
+                self.write_place(stG, frame, dest, mk_some(itemG))
                 stG.event("loop_iter", lid)
                 backsG, retsG = self.run_region(stG, body, frame, tgt, hdr)
             new_temps = set()
@@ -2012,7 +2021,7 @@ class Interp:
             stE.store[c] = VSeq(("zeros", old.term[1], old.term[2] + (("loopsum", lid),)), old.cap)
         for c in temps:
             stE.store[c] = UNINIT
-        self.write_loc(stE, r.cell, r.path, VIter(sl, sl.len))
+        self.write_loc(stE, r.cell, r.path, type(it)(sl, sl.len))
         stE.event("loop_done", lid)
         return [(stE, NONE)]
 
